@@ -299,9 +299,9 @@ Section Parsed.
   Qed.
 End Parsed.
 
-(** PART 1, entry points: every tree returned by cJSON_ParseWithLengthOpts (no allocation failure;
-    by [ParseSafe.parse_length_safe] a failure schedule only ever turns a tree into NULL — see
-    [parsed_tree_shape_any_oracle] in ParseUsableHeap.v for every oracle) has the shape. *)
+(** PART 1, entry points: every tree returned by cJSON_ParseWithLengthOpts without allocation
+    failure has the shape (a failure schedule only ever turns the tree into NULL: see
+    [parsed_tree_shape_any_oracle] in ParseUsableAll.v for every schedule and every entry point). *)
 Theorem parsed_tree_shape strtod (B : Z -> Prop) (D : dbl -> Prop) :
   (forall c, is_byte c = true -> B c) -> (forall s d k, strtod s = Some (d, k) -> D d) ->
   strtod_ok strtod ->
